@@ -3,6 +3,9 @@ import Tau.Proofs.Solver
 import Tau.Proofs.Rewrite
 import Tau.Proofs.Pratt
 import Tau.Rule
+import Tau.Proofs.Shake0
+import Tau.Proofs.MappingShake
+import Tau.Properties.C03
 /-
   C01 — Optimisation never changes a verdict.
 
@@ -164,5 +167,153 @@ theorem rewrite_sound (E : RegexEngine) (hL : StripLaw E) (K : IdentK) (d : Doc)
     by one, the condition itself holds no search). -/
 theorem rewrite_sound_closed (E : RegexEngine) (hL : StripLaw E) (d : Doc) (e : Expr) :
     solveClosed E d (rewrite E e) = solveClosed E d e := rewrite_sound E hL closedK d e
+
+end Tau.C01
+
+namespace Tau.C01
+open Tau
+
+/-! ### shake_0 (the first half of `shake`) is exact wherever it removes no double negation
+
+  `shake0F` is the model of `shake_0` that also reports whether it eliminated a double negation
+  (the step `shake_double_negation_unsound` shows to be wrong).  `shakeOK` is the class of trees
+  `parse_identifier` and the condition parser build, minus exactly the shape of
+  `shake_match_reshape_unsound` (an all()/of() directly on a one-member group or an and/or chain). -/
+
+/-- **shake_0 is exact** — same three-valued result on every document, for every identifier
+    continuation — on every `shakeOK` tree on which it eliminates no double negation. -/
+theorem shake0_exact (E : RegexEngine) (K : IdentK) (fuel : Nat) (e : Expr) (hok : shakeOK e = true)
+    (hfl : (shake0F fuel e).2 = false) (d : Doc) :
+    solveG E K d (shake0 fuel e) = solveG E K d e :=
+  shake0_sound E K fuel e hok hfl d
+
+/-- … and its output is again such a tree (so the statement composes over repeated calls). -/
+theorem shake0_closed (fuel : Nat) (e : Expr) (hok : shakeOK e = true)
+    (hfl : (shake0F fuel e).2 = false) : shakeOK (shake0 fuel e) = true :=
+  shake0_shakeOK fuel e hok hfl
+
+/-- Every identifier body the loader builds is in the class. -/
+theorem identifier_bodies_shakeOK (E : RegexEngine) (ic : Bool) (y : Yaml) (e : Expr)
+    (h : parseIdentifier E ic y = .ok e) : shakeOK e = true :=
+  parseIdentifier_shakeOK E ic y e h
+
+/-- The identifiers a condition puts under all()/of(). -/
+def matchIds : Expr → List Str
+  | .match _ (.ident i) => [i]
+  | .negate e => matchIds e
+  | .bin l _ r => matchIds l ++ matchIds r
+  | _ => []
+
+theorem isLeafE_of_not_solvable (e : Expr) (h : e.isSolvable = false) : isLeafE e = true := by
+  cases e <;> simp [Expr.isSolvable] at h <;> rfl
+
+/-- Coalescing a parsed condition over bodies in the class stays in the class, provided the
+    bodies put under all()/of() are not the reshaped kind. -/
+theorem coalesce_shakeOK (ids : Ids) (c : Expr) (h : PShape c)
+    (hb : ∀ i b, lookupId ids i = some b → shakeOK b = true)
+    (hm : ∀ i ∈ matchIds c, ∀ b, lookupId ids i = some b → matchChildOK b = true) :
+    shakeOK (coalesce ids c) = true := by
+  induction h with
+  | ident i =>
+    cases hl : lookupId ids i with
+    | none => simp [coalesce, hl, shakeOK]
+    | some b => simpa [coalesce, hl] using hb i b hl
+  | matchIdent k i =>
+    cases hl : lookupId ids i with
+    | none => simp [coalesce, hl, shakeOK, matchChildOK]
+    | some b =>
+      simp only [coalesce, hl, shakeOK, Bool.and_eq_true]
+      exact ⟨hm i (by simp [matchIds]) b hl, hb i b hl⟩
+  | litFloat b => simp [coalesce, shakeOK]
+  | litInt i => simp [coalesce, shakeOK]
+  | litCast f m => simp [coalesce, shakeOK]
+  | negate _ _ ih =>
+    simp only [coalesce, shakeOK]
+    exact ih (fun i hi => hm i (by simpa [matchIds] using hi))
+  | binBool op hop _ _ _ _ ihl ihr =>
+    have h1 := ihl (fun i hi => hm i (by simp [matchIds, hi]))
+    have h2 := ihr (fun i hi => hm i (by simp [matchIds, hi]))
+    rcases hop with rfl | rfl <;> simp [coalesce, shakeOK, h1, h2]
+  | cmp l op r h1 h2 hl hr =>
+    rw [coalesce, coalesce_leaf ids l hl, coalesce_leaf ids r hr]
+    have := isLeafE_of_not_solvable l hl
+    have := isLeafE_of_not_solvable r hr
+    cases op <;> simp_all [shakeOK]
+
+/-- The visitor loop stores only what `parse_identifier` returned. -/
+theorem loadEntries_bodies (P : Expr → Prop) (E : RegexEngine) (ic : Bool)
+    (hP : ∀ v e, parseIdentifier E ic v = .ok e → P e)
+    (entries : List (Str × Yaml)) (st st' : LoadSt)
+    (hst : ∀ p ∈ st.ids, P p.2) (h : loadEntries E ic entries st = .ok st') :
+    ∀ p ∈ st'.ids, P p.2 := by
+  induction entries generalizing st with
+  | nil => simp [loadEntries] at h; cases h; exact hst
+  | cons x xs ih =>
+    obtain ⟨key, v⟩ := x
+    simp only [loadEntries] at h
+    split at h
+    · split at h
+      · cases h
+      · split at h
+        · exact ih _ (by exact hst) h
+        · cases h
+    · split at h
+      · cases h
+      · split at h
+        · cases h
+        · rename_i e hp
+          refine ih _ ?_ h
+          intro p hp'
+          simp only [List.mem_append, List.mem_singleton] at hp'
+          rcases hp' with hp' | rfl
+          · exact hst p hp'
+          · exact hP v e hp
+
+theorem loaded_bodies_shakeOK (E : RegexEngine) (ic : Bool) (entries : List (Str × Yaml)) (d : Detection)
+    (h : loadDetection E ic entries = .ok d) :
+    ∀ i b, lookupId d.ids i = some b → shakeOK b = true := by
+  unfold loadDetection at h
+  split at h
+  · cases h
+  · rename_i st hst
+    have hall := loadEntries_bodies (fun e => shakeOK e = true) E ic
+      (fun v e hv => parseIdentifier_shakeOK E ic v e hv) entries {} st (by intro p hp; cases hp) hst
+    split at h
+    · cases h
+    · split at h
+      · cases h
+      · split at h
+        · cases h
+        · split at h
+          · cases h
+          · split at h
+            · cases h
+            · cases h
+              intro i b hl
+              exact hall (i, b) (C03.lookup_mem _ i b hl)
+
+/-- **Rule level.** For a loaded rule: coalesce followed by shake_0 gives, on every document, the
+    three-valued result of the unoptimised rule — unless shake_0 eliminated a double negation, or
+    the condition applies all()/of() to an identifier whose body is a one-member group (the two
+    recorded findings). -/
+theorem coalesce_shake0_exact (E : RegexEngine) (ic : Bool) (entries : List (Str × Yaml)) (det : Detection)
+    (h : loadDetection E ic entries = .ok det) (fuel : Nat)
+    (hm : ∀ i ∈ matchIds det.expr, ∀ b, lookupId det.ids i = some b → matchChildOK b = true)
+    (hfl : (shake0F fuel (coalesce det.ids det.expr)).2 = false) (d : Doc) :
+    solveClosed E d (shake0 fuel (coalesce det.ids det.expr)) = solveTop E det.ids d det.expr := by
+  have hshape := (C03.loaded_condition_shape E ic entries det h).1
+  have hb : ∀ i b, lookupId det.ids i = some b → shakeOK b = true := by
+    intro i b hl
+    exact loaded_bodies_shakeOK E ic entries det h i b hl
+  rw [← coalesce_sound E det.ids d det.expr hshape]
+  exact shake0_exact E closedK fuel _ (coalesce_shakeOK det.ids det.expr hshape hb hm) hfl d
+
+/-- The hypotheses are satisfiable and the theorem is not about the identity: a condition
+    `A and B and C` is regrouped by shake_0, no double negation, every side condition holds. -/
+example :
+    let a : Expr := .search (.exact ['x']) ['f'] false
+    let e : Expr := .bin (.bin a .and a) .and (.match .all (.group .or [a, a]))
+    shakeOK e = true ∧ (shake0F 10 e).2 = false ∧
+      (match shake0 10 e with | .group .and xs => xs.length | _ => 0) = 3 := by decide
 
 end Tau.C01
